@@ -15,6 +15,7 @@ import (
 	"sort"
 	"strings"
 	"sync"
+	"syscall"
 	"time"
 )
 
@@ -87,6 +88,7 @@ func runWorker(bin string, timeout time.Duration, args ...string) workerOut {
 	ctx, cancel := context.WithTimeout(context.Background(), timeout)
 	defer cancel()
 	cmd := exec.CommandContext(ctx, bin, args...)
+	cmd.SysProcAttr = &syscall.SysProcAttr{Pdeathsig: syscall.SIGKILL} // no orphan workers if the driver is killed
 	// The simulation runs one task at a time: two OS threads are plenty, and
 	// sixteen worker processes must not each start sixteen GC workers.
 	cmd.Env = append(os.Environ(), gorace, "GOMAXPROCS="+fmt.Sprint(envInt("VERIF_WORKER_GOMAXPROCS", 2)))
@@ -267,6 +269,7 @@ func treeDigest() string {
 
 // builtTree is a prepared scratch tree with the worker binaries of a property.
 type builtTree struct {
+	level   int // rewrite level that built (2 = full)
 	scratch string
 	bins    map[bool]string // by race flag
 	rw      rewriteStats
@@ -275,38 +278,50 @@ type builtTree struct {
 
 func buildFor(prop string) *builtTree {
 	t0 := time.Now()
-	bt := &builtTree{scratch: newScratch(), bins: map[bool]string{}}
-	rw, err := prepare(bt.scratch)
-	if err != nil {
-		infra("preparing the scratch copy of /repo failed: %v", err)
-	}
-	bt.rw = rw
 	need := map[bool]bool{}
 	for _, lc := range lanes[prop] {
 		need[lc.Race] = true
 	}
-	var wg sync.WaitGroup
-	var mu sync.Mutex
-	var berr error
-	for race := range need {
-		wg.Add(1)
-		go func(race bool) {
-			defer wg.Done()
-			bin, err := buildWorker(bt.scratch, race)
-			mu.Lock()
-			defer mu.Unlock()
-			if err != nil {
-				berr = err
+	var lastErr error
+	for level := 2; level >= 0; level-- {
+		rewriteLevel = level
+		bt := &builtTree{scratch: newScratch(), bins: map[bool]string{}, level: level}
+		rw, err := prepare(bt.scratch)
+		if err != nil {
+			lastErr = fmt.Errorf("preparing the scratch copy of /repo failed: %v", err)
+			fmt.Printf("note: source rewrite at level %d failed (%v); stepping down\n", level, err)
+			continue
+		}
+		bt.rw = rw
+		var wg sync.WaitGroup
+		var mu sync.Mutex
+		var berr error
+		for race := range need {
+			wg.Add(1)
+			go func(race bool) {
+				defer wg.Done()
+				bin, err := buildWorker(bt.scratch, race)
+				mu.Lock()
+				defer mu.Unlock()
+				if err != nil {
+					berr = err
+				}
+				bt.bins[race] = bin
+			}(race)
+		}
+		wg.Wait()
+		if berr != nil {
+			lastErr = berr
+			if level > 0 {
+				fmt.Printf("note: the tree rewritten at level %d does not build; stepping down (first lines: %.400s)\n", level, berr.Error())
 			}
-			bt.bins[race] = bin
-		}(race)
+			continue
+		}
+		bt.buildS = time.Since(t0).Seconds()
+		return bt
 	}
-	wg.Wait()
-	if berr != nil {
-		infra("building the worker against /repo's current tree failed (build/API breakage is not a violation):\n%v", berr)
-	}
-	bt.buildS = time.Since(t0).Seconds()
-	return bt
+	infra("building the worker against /repo's current tree failed (build/API breakage is not a violation):\n%v", lastErr)
+	return nil
 }
 
 func workerArgs(prop, tier string, lc laneCfg, seed uint64) []string {
@@ -413,6 +428,12 @@ func check(prop, tier string, seed uint64) int {
 					mu.Unlock()
 					if iso {
 						args = append(args, "-isolate")
+					}
+					switch {
+					case !quickDeadline.IsZero():
+						args = append(args, "-stopat", fmt.Sprint(quickDeadline.Unix()))
+					case tier == "thorough":
+						args = append(args, "-stopat", fmt.Sprint(deadline.Unix()))
 					}
 					wo := runWorker(bt.bins[lc.Race], 30*time.Minute, args...)
 					if wo.err != nil {
